@@ -18,6 +18,7 @@ package main
 
 import (
 	"bytes"
+	"context"
 	"crypto"
 	"crypto/ecdsa"
 	crand "crypto/rand"
@@ -31,9 +32,11 @@ import (
 	"math/big"
 	"net"
 	"os"
+	"os/exec"
 	"runtime"
 	"runtime/debug"
 	"sort"
+	"strings"
 	"sync"
 	"time"
 
@@ -46,6 +49,7 @@ import (
 
 func init() {
 	evals["dec"] = evalDec
+	evals["colddec"] = evalColddec
 	gens["C18"] = genC18
 	c18register()
 }
@@ -129,6 +133,58 @@ func evalDec(args []string) string {
 		return "ok"
 	}
 	return "ORACLE-FAIL:" + v + ":" + args[0]
+}
+
+// colddec <decoder> <input> <extra> : the decoder as the first action of a fresh process (`h cold …`, see main.go);
+// the child prints ok or panic:<message>
+func evalColddec(args []string) string {
+	if len(args) != 3 {
+		return "bad-op"
+	}
+	if _, ok := c18decs[args[0]]; !ok {
+		return "bad-op"
+	}
+	exe, err := os.Executable()
+	if err != nil {
+		return "ORACLE-FAIL:harness-no-executable"
+	}
+	ctx, cancel := context.WithTimeout(context.Background(), 15*time.Second)
+	defer cancel()
+	out, err := exec.CommandContext(ctx, exe, "cold", args[0], args[1], args[2]).Output()
+	res := strings.TrimSpace(string(out))
+	if ctx.Err() != nil {
+		return "ORACLE-FAIL:hang:" + args[0]
+	}
+	if res == "ok" {
+		return "ok"
+	}
+	if strings.HasPrefix(res, "panic") {
+		return "ORACLE-FAIL:panic-in-fresh-process:" + args[0]
+	}
+	return "ORACLE-FAIL:cold-child-failed:" + args[0] + ":" + strings.ReplaceAll(fmt.Sprint(err), " ", "_")
+}
+
+// c18cold is the body of `h cold <decoder> <input> <extra>`
+func c18cold(args []string) string {
+	if len(args) != 3 {
+		return "bad-args"
+	}
+	f, ok := c18decs[args[0]]
+	in, ok1 := unhx(args[1])
+	extra, ok2 := unhx(args[2])
+	if !ok || !ok1 || !ok2 {
+		return "bad-args"
+	}
+	res := "ok"
+	func() {
+		defer func() {
+			if e := recover(); e != nil {
+				res = "panic:" + strings.ReplaceAll(fmt.Sprint(e), " ", "_")
+			}
+		}()
+		f(in, extra)
+	}()
+	return res
 }
 
 func c18run(name string, f c18dec, in, extra []byte) string {
@@ -485,7 +541,7 @@ func c18useCert(c *x509.Certificate) {
 	if c == nil {
 		return
 	}
-	f := c18fx
+	f := c18fixture()
 	c.CheckSignatureFrom(c)
 	c.CheckSignature(c.SignatureAlgorithm, c.RawTBSCertificate, c.Signature)
 	c.CheckSignature(x509.SM2WithSM3, c18Msg, f.sig)
@@ -507,7 +563,7 @@ func c18usePub(p *sm2.PublicKey) {
 	if p == nil {
 		return
 	}
-	p.Verify(c18Msg, c18fx.sig)
+	p.Verify(c18Msg, c18fixture().sig)
 	if p.X != nil && p.Y != nil {
 		sm2.Compress(p)
 		x509.WritePublicKeyToHex(p)
@@ -519,8 +575,8 @@ func c18usePriv(k *sm2.PrivateKey) {
 		return
 	}
 	k.Public()
-	sm2.Decrypt(k, append([]byte{}, c18fx.ct...), sm2.C1C3C2)
-	k.DecryptAsn1(c18fx.ctA)
+	sm2.Decrypt(k, append([]byte{}, c18fixture().ct...), sm2.C1C3C2)
+	k.DecryptAsn1(c18fixture().ctA)
 	x509.WritePrivateKeyToHex(k)
 }
 
@@ -540,7 +596,7 @@ func c18useP7(p7 *x509.PKCS7) {
 	if p7 == nil {
 		return
 	}
-	f := c18fx
+	f := c18fixture()
 	p7.Verify()
 	p7.GetOnlySigner()
 	var t time.Time
@@ -581,7 +637,7 @@ func c18useKey(k interface{}) {
 
 func c18register() {
 	d := c18decs
-	fx := func() *c18fix { return c18fx }
+	fx := func() *c18fix { return c18fixture() } // (a cold process builds the fixture on first use)
 
 	// sm2/sm2.go, sm2/utils.go
 	d["sm2.Decrypt.c1c3c2"] = func(in, _ []byte) { sm2.Decrypt(fx().k, in, sm2.C1C3C2) }
@@ -728,6 +784,11 @@ func c18register() {
 		}
 	}
 	d["pkcs12.decodeBMPString"] = func(in, _ []byte) { pkcs12.VerifDecodeBMPString(in) }
+	d["pkcs12.ParsePKCS8PrivateKey"] = func(in, _ []byte) {
+		if k, err := pkcs12.ParsePKCS8PrivateKey(in); err == nil {
+			c18useKey(k)
+		}
+	}
 
 	// sm4
 	useSM4 := func(k sm4.SM4Key, err error) {
